@@ -273,6 +273,16 @@ main(int argc, char *argv[])
 			 * index (index i is physical CPU i + 2, so indices and physical ids overlap) */
 			for (int i = 1; i <= 300; i++)
 				ovni_add_cpu(i, i + 2);
+		} else if (op[0] == 'Z') {
+			/* the thread ends its tracing; later the same OS thread asks for tracing again under the same id (a worker
+			 * that detaches and attaches again): whatever the library answers, what was flushed and freed stays */
+			ovni_flush();
+			ovni_thread_free();
+			fprintf(logf, "FREED\n");
+			fflush(logf);
+			ovni_thread_init(777);
+			fprintf(logf, "REINIT\n");
+			fflush(logf);
 		} else if (op[0] == 'c' && op[1] == 'd') {
 			/* the program changes its working directory (nothing the tracing protocol forbids) */
 			mkdir("elsewhere", 0755);
